@@ -31,9 +31,15 @@ import (
 type verifRHookCS struct {
 	chunks.ChunkStore
 	onCommit func()
+	// novel, if set, writes one fresh value through this handle before every swap (see the
+	// per-handle NBS mode in verifROpen)
+	novel func()
 }
 
 func (h *verifRHookCS) Commit(ctx context.Context, current, last hash.Hash) (bool, error) {
+	if f := h.novel; f != nil {
+		f()
+	}
 	if f := h.onCommit; f != nil {
 		f()
 	}
@@ -157,6 +163,23 @@ func verifROpen(t *testing.T, ft verifRFailer, mode string, k int, valueSyms []s
 		vs := types.NewValueStore(cs)
 		c := &verifRClient{idx: i, cs: cs, vs: vs, db: datas.NewTypesDatabase(vs, tree.NewNodeStore(cs)), snaps: map[string]datas.Dataset{}}
 		h.clients = append(h.clients, c)
+		if mode == verifRModeNBSHandles {
+			// A NomsBlockStore decides "my manifest update landed" by comparing the manifest it
+			// wanted with the one on disk. A handle with nothing new to persist whose intended
+			// root is exactly what another handle just wrote (A->B->A on the whole map) therefore
+			// reports success without having swapped: same final state, but whether it happens
+			// depends on which chunks happen to sit in the handle's memtable. Every committing
+			// client here writes one fresh value before a swap (a real committer has novel chunks
+			// whenever its new root is new), which makes the swap succeed iff the handle's root is
+			// still the store's root.
+			n := 0
+			cs.novel = func() {
+				n++
+				if _, err := vs.WriteValue(ctx, types.String(fmt.Sprintf("novel value of client %d #%d", i, n))); err != nil {
+					h.fail("WriteValue: %v", err)
+				}
+			}
+		}
 	}
 	for _, s := range valueSyms {
 		v := types.String("value " + s)
@@ -292,6 +315,7 @@ func (h *verifRHarness) exec(op *verifROp, exp *verifROutcome, top bool) {
 		if i < len(op.Inter) && i < len(exp.Nested) {
 			h.exec(op.Inter[i], exp.Nested[i], false)
 			h.readbackAll(exp.Nested[i].Post, op.Client)
+			h.checkDescends(op.Inter[i], exp.Nested[i])
 		}
 	}
 	var err error
@@ -356,7 +380,43 @@ func (h *verifRHarness) exec(op *verifROp, exp *verifROutcome, top bool) {
 	}
 	if top {
 		h.readbackAll(exp.Post, -1)
+		h.checkDescends(op, exp)
 	}
+}
+
+// checkDescends: an accepted ordinary commit or fast-forward moved the branch to a descendant
+// of its previous head. Walks the stored commits (not the model's graph).
+func (h *verifRHarness) checkDescends(op *verifROp, exp *verifROutcome) {
+	if exp.PrevHead == "" {
+		return
+	}
+	c := h.clients[op.Client]
+	old, now := h.hashOf(exp.PrevHead), h.hashOf(exp.NewHead)
+	seen := map[hash.Hash]bool{}
+	stack := []hash.Hash{now}
+	for len(stack) > 0 {
+		a := stack[len(stack)-1]
+		stack = stack[:len(stack)-1]
+		if a == old {
+			return
+		}
+		if seen[a] {
+			continue
+		}
+		seen[a] = true
+		v, err := c.vs.ReadValue(h.ctx, a)
+		if err != nil || v == nil {
+			h.fail("%s: cannot read commit %s (%s) while walking the history of the new head: %v", op, a, h.hash2sym[a], err)
+		}
+		ps, err := datas.GetCommitParents(h.ctx, c.vs, v)
+		if err != nil {
+			h.fail("%s: parents of %s: %v", op, h.hash2sym[a], err)
+		}
+		for _, p := range ps {
+			stack = append(stack, p.Addr())
+		}
+	}
+	h.fail("%s moved %s from %s to %s, which does not descend from it (stored commit graph)", op, op.ID, exp.PrevHead, exp.NewHead)
 }
 
 // readbackAll reads the whole dataset map through every client (except skip, which is in the
